@@ -748,5 +748,24 @@ func trSandbox(args []string) error {
 		return err
 	}
 	pairList("sb_cli_uses", cli)
+	// how the commands compute the defaults of the flags that open the sandbox: file, variable, right-hand side
+	var envd []string
+	for _, fn := range []string{"run.go", "test.go"} {
+		cf, err := parser.ParseFile(trsbFset, filepath.Join(*repo, "cmd", "yaegi", fn), nil, 0)
+		if err != nil {
+			return err
+		}
+		ast.Inspect(cf, func(n ast.Node) bool {
+			as, ok := n.(*ast.AssignStmt)
+			if !ok || len(as.Lhs) == 0 || len(as.Rhs) != 1 {
+				return true
+			}
+			if id, ok := as.Lhs[0].(*ast.Ident); ok && (id.Name == "useSyscall" || id.Name == "useUnsafe" || id.Name == "useUnrestricted") {
+				envd = append(envd, fmt.Sprintf("(%s, %s, %s)", coqStr(fn), coqStr(id.Name), coqStr(trsbPrint(as.Rhs[0]))))
+			}
+			return true
+		})
+	}
+	fmt.Fprintf(&b, "Definition sb_cli_env_defaults : list (str * str * str) :=\n  [%s].\n", strings.Join(envd, ";\n   "))
 	return writeIfChanged(filepath.Join(*out, "SandboxTables_gen.v"), []byte(b.String()))
 }
